@@ -234,10 +234,14 @@ def names_of(libname, decl_index):
                             if lang == "fortran":
                                 for ci in containers:
                                     table[ci].setdefault("f-inside", set()).add(getattr(fmt, field))
+                    if fmt.inlocal("F_C_name"):
+                        for ci in containers:
+                            table[ci].setdefault("f-iface", set()).add(fmt.F_C_name)
             for en in getattr(node, "enums", []):
                 for mname, mfmt in getattr(en, "_fmtmembers", {}).items():
                     for ci in containers:
                         table[ci].setdefault("c-inside", set()).add(mfmt.C_enum_member)
+                        table[ci].setdefault("f-param", set()).add(mfmt.F_enum_member)
             for sub in list(getattr(node, "classes", [])) + list(getattr(node, "namespaces", [])):
                 kind = "class" if sub in getattr(node, "classes", []) else "namespace"
                 text = "%s %s" % (kind, sub.name)
@@ -371,6 +375,12 @@ def check_run(libname, wrap_c, wrap_f, decl_index, decl_cf, cfg, res):
             for nm in mine.get("f-inside", []):
                 if re.search(r"(?im)^\s*(?:[a-z_()0-9 ]*\s)?(subroutine|function)\s+%s\s*\(" % re.escape(nm), foutside):
                     return "declaration %r has wrap_fortran off but the Fortran wrapper %s (declared inside it) is emitted" % (dtext, nm)
+            for nm in mine.get("f-param", []):
+                if re.search(r"(?im)^\s*integer\(C_INT\), parameter :: %s\b" % re.escape(nm), ftext):
+                    return "declaration %r has wrap_fortran off but the enumerator %s (declared inside it) is a parameter of the Fortran module" % (dtext, nm)
+            for nm in mine.get("f-iface", []):
+                if re.search(r"(?im)^\s*(?:[a-z_()0-9 ]*\s)?(subroutine|function)\s+%s\s*\(" % re.escape(nm), ftext):
+                    return "declaration %r has wrap_fortran off but the bind(C) interface %s (declared inside it) is in the Fortran module" % (dtext, nm)
         for lang in ("python", "lua", "fortran"):
             others = set()
             for j in range(nd):
@@ -497,6 +507,93 @@ def make_dirs(**kw):
     return DirsHarness(**kw)
 
 
+# ---------------------------------------------------------------------------- K4 class template instantiations
+INST_LIB = """
+library: tmpl
+cxx_header: tmpl.hpp
+options:
+  wrap_python: false
+  wrap_lua: false
+declarations:
+- decl: template<typename T> class Holder
+  cxx_template:
+  - instantiation: <int>
+  - instantiation: <double>
+  declarations:
+  - decl: Holder()
+  - decl: T get() const
+"""
+INST_CHOICES = [None, True, False]        # the option is absent / on / off at that place
+
+
+def inst_verdict(lang, cls_opt, i0, i1):
+    d = pipeline.load_yaml(INST_LIB)
+    node = d["declarations"][0]
+    # (the Fortran wrapper calls the C wrapper: the C switch is moved together with the Fortran one)
+    keys = ["wrap_fortran"] if lang == "fortran" else ["wrap_c", "wrap_fortran"]
+    if cls_opt is not None:
+        for key in keys:
+            node.setdefault("options", {})[key] = cls_opt
+    for ent, v in zip(node["cxx_template"], (i0, i1)):
+        if v is not None:
+            for key in keys:
+                ent.setdefault("options", {})[key] = v
+    try:
+        r = pipeline.run(d, outdirs=DIRS, deep=False)
+    except Exception as ex:
+        return "exception %s: %s" % (type(ex).__name__, str(ex)[:150])
+    import re
+    files = {f: "".join(p) for f, p in r.files.items()}
+    for name, v in (("Holder_int", i0), ("Holder_double", i1)):
+        want = v if v is not None else (cls_opt if cls_opt is not None else True)
+        if lang == "fortran":
+            ftext = "\n".join(t for f, t in files.items() if kind_of(f) == "fortran")
+            have = re.search(r"(?im)^\s*type\s*(?:,[^:\n]*)?(?:::)?\s*%s\s*$" % name.lower(), ftext) is not None
+            what = "the derived type %s" % name.lower()
+        else:
+            have = any(os.path.basename(f) == "wrap%s.h" % name for f in files)
+            what = "the header wrap%s.h" % name
+        if have != bool(want):
+            return "instantiation %s has wrap_%s %s (its own option %r, the class's %r) but %s is %s" % (
+                name, lang, "on" if want else "off", v, cls_opt, what, "written" if have else "missing")
+    return None
+
+
+class InstHarness(object):
+    """wrap_c / wrap_fortran given on the class template and / or on each of its two instantiations, every combination
+    of absent / on / off chosen by the engine: an instantiation is wrapped iff its nearest setting says so."""
+
+    def __init__(self, lang, twin=False):
+        self.lang, self.twin = lang, twin
+
+    def run(self, e):
+        pick = []
+        for nm in ("cls", "inst0", "inst1"):
+            z = z3.Int("inst_" + nm)
+            e.assume(z3.And(z >= 0, z < len(INST_CHOICES)))
+            pick.append(INST_CHOICES[e.choose(z)])
+        self.pick = pick
+        return inst_verdict(self.lang, *pick)
+
+    def witness(self, what):
+        return {"kernel": "instantiations", "lang": self.lang, "class_option": self.pick[0], "instantiation_options": self.pick[1:], "what": what}
+
+    def judge(self, e, kind, value):
+        cls = "instantiations/" + self.lang
+        if kind == "exc":
+            return {"cls": cls, "violation": self.witness("exception %s: %s" % (type(value).__name__, str(value)[:150])), "vkey": "inst:exc"}
+        what = value
+        if self.twin and not what:
+            what = "reachability twin"
+        if what:
+            return {"cls": cls, "violation": self.witness(what), "vkey": "inst:%s:%s" % (self.lang, what[-40:])}
+        return {"cls": cls, "sample": self.witness(None)}
+
+
+def make_inst(**kw):
+    return InstHarness(**kw)
+
+
 def make_promote(**kw):
     return PromoteHarness(**kw)
 
@@ -508,6 +605,8 @@ def make_pipe(**kw):
 def confirm(w):
     if w.get("kernel") == "promote":
         return confirm_promote(w)
+    if w.get("kernel") == "instantiations":
+        return inst_verdict(w["lang"], w["class_option"], *w["instantiation_options"])
     if w.get("kernel") == "dirs":
         try:
             return dirs_verdict(*run_main_dirs(w["library"], w["given"]))
@@ -547,6 +646,9 @@ def main():
             labels.append("promote_wrap kernel, tree %s, wrap_%s symbolic on %d nodes" % (tree, lang, len(tree_nodes(TREES[tree]))))
     specs.append(("harness.C15", "make_dirs", dict(libname="clib")))
     labels.append("command-line directory options (main_with_args), clib")
+    for lang in ("c", "fortran"):
+        specs.append(("harness.C15", "make_inst", dict(lang=lang)))
+        labels.append("class template instantiations, wrap_%s on the class / each instantiation" % lang)
     libs = ["geom", "clib", "strs"] if tier == "quick" else ["geom", "clib", "strs", "nest", "plain"]
     cfs = [(True, True), (True, False), (False, False)]
     for lib in libs:
